@@ -3582,10 +3582,19 @@ def sg1(proj, rep, func_quals):
             if not isinstance(g, ast.If):
                 continue
             early = any(isinstance(s, ast.Return) and s.value is not None and not isinstance(s.value, ast.Constant) for s in g.body)
-            if not early:
-                continue
             t = ast.unparse(g.test).replace(' ', '')
             lit_dim = re.search(r'(shape\[-?\d\]|N0|dim|\bd)==2(?!\d)', t) is not None
+            if not early:
+                # assignment form: `if dim == 2: ret = <fast path>  else: ret = <general formula>` with ret returned
+                retn = {r.value.id for r in ast.walk(fi.node) if isinstance(r, ast.Return) and isinstance(r.value, ast.Name)}
+                arm = lambda blk: {x.id for s in blk for x in ast.walk(s) if isinstance(x, ast.Name) and isinstance(x.ctx, ast.Store)}
+                if lit_dim and g.orelse and (arm(g.body) & arm(g.orelse) & retn):
+                    bad = g
+                continue
+            probe = any(isinstance(c, ast.Call) and ast.unparse(c.func).split('.')[-1] in ('count_nonzero', 'allclose', 'array_equal', 'array_equiv', 'isclose')
+                        and any(isinstance(x, ast.Name) and x.id in fi.all_params for x in ast.walk(c)) for c in ast.walk(g.test))
+            if probe:
+                bad = g
             small = any(isinstance(c, ast.Constant) and isinstance(c.value, float) and 0 < c.value < 1e-3 for c in ast.walk(g.test)) and \
                 any(isinstance(c, ast.Subscript) for c in ast.walk(g.test))
             if lit_dim or small:
@@ -3954,4 +3963,352 @@ def gi1(proj, rep, modules=('numqi.sim',)):
                                                       f'object (for a measurement gate: one recorded outcome)', m, c)
                     else:
                         rep.undecided('GI1', fi.qual, f'`{kw.arg}={v}` not recognised as the loop\'s own {kw.arg}', m, c)
+    return n
+
+
+RULE_TD1 = ('TD1: a trial-division sweep `range(lo, B, step)` whose body tests `n % x` includes the integer square root: B is isqrt(n)+1 / int(sqrt(n))+1 (an exclusive bound '
+            'without the +1 never tries x = sqrt(n): 9, 25, 49 pass as primes).')
+RULE_DT14 = ('DT14: a buffer allocated from a scalar parameter without a dtype (np.full(n, p), np.diag(np.full(n, p)), np.array([.. p ..])) has the dtype of what the caller '
+             'passed; a later item store of a quotient / root is truncated when the caller passes an integer end point (b = 0 or 1).')
+RULE_DROP1 = ('DROP1: in the certificate routines of numqi.matrix_space a loop that accumulates witness vectors appends on every iteration: no `continue` under a magnitude '
+              'test (abs / max / norm against a tolerance) precedes the append - a vanishing vector is itself the dependence witness.')
+RULE_RD2 = ('RD2: in a state constructor with a `return_dm` switch the conversion to the projector is the last transformation of the result: nothing modifies `ret` after the '
+            '`if return_dm:` block (the density matrix is the projector of the very ket the other mode returns).')
+
+
+def td1_dt14_drop1_rd2(proj, rep, which, modules=None):
+    n = dict(TD1=0, DT14=0, DROP1=0, RD2=0)
+    for k in which:
+        rep.rule(k, globals()['RULE_' + k])
+    sqrtish = lambda e: (isinstance(e, ast.Call) and ast.unparse(e.func).split('.')[-1] == 'isqrt') or (
+        isinstance(e, ast.Call) and ast.unparse(e.func) == 'int' and e.args and (
+            any(isinstance(c, ast.Call) and ast.unparse(c.func).split('.')[-1] == 'sqrt' for c in ast.walk(e.args[0]))
+            or any(isinstance(c, ast.BinOp) and isinstance(c.op, ast.Pow) and ast.unparse(c.right) in ('0.5', '1/2') for c in ast.walk(e.args[0]))))
+    if 'TD1' in which:
+        for m in proj.modules.values():
+            if not _in_scope(m, modules):
+                continue
+            for c in ast.walk(m.tree):
+                gens = []
+                if isinstance(c, ast.For):
+                    gens = [(c.target, c.iter, c.body)]
+                elif isinstance(c, (ast.GeneratorExp, ast.ListComp, ast.SetComp)):
+                    gens = [(g.target, g.iter, [c.elt] + list(g.ifs)) for g in c.generators]
+                for tgt, it, body in gens:
+                    if not (isinstance(it, ast.Call) and ast.unparse(it.func) == 'range' and len(it.args) >= 2 and isinstance(tgt, ast.Name)):
+                        continue
+                    B = it.args[1]
+                    mods = [b for s in body for b in ast.walk(s) if isinstance(b, ast.BinOp) and isinstance(b.op, ast.Mod) and isinstance(b.right, ast.Name) and b.right.id == tgt.id]
+                    if not mods:
+                        continue
+                    core = B.left if isinstance(B, ast.BinOp) and isinstance(B.op, ast.Add) else B
+                    if not sqrtish(core) and not (isinstance(B, ast.BinOp) and sqrtish(B.right)):
+                        continue
+                    n['TD1'] += 1
+                    rep.touch(m)
+                    if isinstance(B, ast.BinOp) and isinstance(B.op, ast.Add) and ast.unparse(B.right if sqrtish(B.left) else B.left) in ('1', '2'):
+                        rep.ok('TD1', m.name, f'`{ast.unparse(it)}` includes the integer square root', m, it, text=f'trial division {ast.unparse(it)}')
+                    elif sqrtish(B):
+                        rep.violation('TD1', m.name, f'`{ast.unparse(it)}` stops before the integer square root: n = p*p (9, 25, 49, 121) has no divisor in the sweep and passes as prime',
+                                      m, it)
+                    else:
+                        rep.undecided('TD1', m.name, f'`{ast.unparse(it)}` bound not recognised', m, it)
+    for fi in proj.iter_functions():
+        m = fi.module
+        if not _in_scope(m, modules):
+            continue
+        params = set(fi.all_params)
+        if 'DT14' in which:
+            for s in ast.walk(fi.node):
+                if not (isinstance(s, ast.Assign) and isinstance(s.targets[0], ast.Name)):
+                    continue
+                v = s.value
+                if isinstance(v, ast.Call) and ast.unparse(v.func) in ('np.diag', 'numpy.diag') and v.args:
+                    v = v.args[0]
+                src = None
+                if isinstance(v, ast.Call) and ast.unparse(v.func) in ('np.full', 'numpy.full') and len(v.args) >= 2 and not any(k.arg == 'dtype' for k in v.keywords) and len(v.args) < 3:
+                    if isinstance(v.args[1], ast.Name) and v.args[1].id in params:
+                        src = v.args[1].id
+                elif isinstance(v, ast.Call) and ast.unparse(v.func) in ('np.array', 'numpy.array') and v.args and isinstance(v.args[0], (ast.List, ast.Tuple)) \
+                        and not any(k.arg == 'dtype' for k in v.keywords) and len(v.args) == 1:
+                    leaves = [x for x in ast.walk(v.args[0]) if not isinstance(x, (ast.List, ast.Tuple, ast.Load))]
+                    if leaves and all((isinstance(x, ast.Name) and x.id in params) or (isinstance(x, ast.Constant) and isinstance(x.value, int)) for x in leaves) \
+                            and any(isinstance(x, ast.Name) for x in leaves):
+                        src = next(x.id for x in leaves if isinstance(x, ast.Name))
+                if src is None:
+                    continue
+                ann = next((a.annotation for a in fi.node.args.args + fi.node.args.kwonlyargs if a.arg == src), None)
+                if ann is None or 'float' not in ast.unparse(ann) or 'ndarray' in ast.unparse(ann) or 'Tensor' in ast.unparse(ann):
+                    continue
+                # the parameter is not converted to float before the allocation
+                if any(isinstance(x, ast.Assign) and any(isinstance(t, ast.Name) and t.id == src for t in x.targets) and x.lineno < s.lineno for x in ast.walk(fi.node)):
+                    continue
+                buf = s.targets[0].id
+                n['DT14'] += 1
+                bad = None
+                for a in ast.walk(fi.node):
+                    if isinstance(a, ast.Assign) and isinstance(a.targets[0], ast.Subscript) and isinstance(a.targets[0].value, ast.Name) and a.targets[0].value.id == buf \
+                            and a.lineno > s.lineno:
+                        if any(isinstance(c, ast.BinOp) and isinstance(c.op, ast.Div) for c in ast.walk(a.value)) or any(
+                                isinstance(c, ast.Call) and ast.unparse(c.func).split('.')[-1] in ('sqrt', 'exp', 'cos', 'sin') for c in ast.walk(a.value)):
+                            # re-bound in between?
+                            if not any(isinstance(x, ast.Assign) and any(isinstance(t, ast.Name) and t.id == buf for t in x.targets) and s.lineno < x.lineno < a.lineno
+                                       for x in ast.walk(fi.node)):
+                                bad = a
+                                break
+                rep.touch(m)
+                if bad is not None:
+                    rep.violation('DT14', fi.qual, f'`{ast.unparse(s)[:60]}` has the dtype of the argument `{src}`; `{ast.unparse(bad)[:60]}` stores a quotient / root into it: with the '
+                                  f'integer end point {src} = 0 (or 1) the entries are truncated', m, bad)
+                else:
+                    rep.ok('DT14', fi.qual, f'`{ast.unparse(s)[:50]}`: no fractional item store follows', m, s)
+        if 'DROP1' in which and m.name.startswith('numqi.matrix_space'):
+            for lp in ast.walk(fi.node):
+                if not isinstance(lp, ast.For):
+                    continue
+                apps = [k for k, st in enumerate(lp.body) if isinstance(st, ast.Expr) and isinstance(st.value, ast.Call) and isinstance(st.value.func, ast.Attribute)
+                        and st.value.func.attr == 'append']
+                if not apps:
+                    continue
+                n['DROP1'] += 1
+                rep.touch(m)
+                hit = None
+                for st in lp.body[:apps[-1]]:
+                    if isinstance(st, ast.If) and any(isinstance(x, ast.Continue) for b in st.body for x in ast.walk(b)) and any(
+                            isinstance(c, ast.Call) and ast.unparse(c.func).split('.')[-1] in ('abs', 'max', 'norm', 'allclose', 'vdot', 'dot') for c in ast.walk(st.test)):
+                        hit = st
+                if hit is not None:
+                    rep.violation('DROP1', fi.qual, f'`if {ast.unparse(hit.test)[:60]}: continue` skips the append of this iteration: the dropped (vanishing) vector is the dependence '
+                                  f'witness, the remaining ones pass the independence test', m, hit)
+                else:
+                    rep.ok('DROP1', fi.qual, f'the loop at line {lp.lineno} appends on every iteration', m, lp, text=f'accumulating loop {ast.unparse(lp.target)} in {ast.unparse(lp.iter)[:40]}')
+        if 'RD2' in which and 'return_dm' in params:
+            for k, st in enumerate(fi.node.body):
+                if isinstance(st, ast.If) and ast.unparse(st.test) == 'return_dm':
+                    tgts = {t.id for s2 in st.body if isinstance(s2, ast.Assign) for t in s2.targets if isinstance(t, ast.Name)}
+                    if not tgts:
+                        continue
+                    n['RD2'] += 1
+                    rep.touch(m)
+                    later = [s2 for s3 in fi.node.body[k + 1:] for s2 in ast.walk(s3) if isinstance(s2, (ast.Assign, ast.AugAssign)) and any(
+                        isinstance(t, ast.Name) and t.id in tgts for t in (s2.targets if isinstance(s2, ast.Assign) else [s2.target]))]
+                    later = [s2 for s2 in later if isinstance(s2, ast.AugAssign) or any(
+                        isinstance(b, ast.BinOp) and not isinstance(b.left, ast.Constant) and not isinstance(b.right, ast.Constant) for b in ast.walk(s2.value))]
+                    if later:
+                        rep.violation('RD2', fi.qual, f'`{ast.unparse(later[0])[:60]}` modifies the result after the `if return_dm:` conversion: in the density-matrix mode it acts on the '
+                                      f'projector, not on the ket', m, later[0])
+                    else:
+                        rep.ok('RD2', fi.qual, 'the projector conversion is the last transformation of the result', m, st)
+    for k in which:
+        rep.count(f'{k}.instances', n[k])
+    return n
+
+
+RULE_FW2 = ('FW2: on a branch that delegates to a numqi helper, an option the caller accepts and the helper accepts under the same name is passed on: when the call leaves it '
+            'out (the helper then runs with its default) and the caller reads the option neither in that branch nor after it, the option is ignored on that branch.')
+RULE_RND1 = ('RND1: an angle is quantised to a multiple of pi/2 (or any grid) with round(), never with int() / floor / astype(int): a phase that falls short of the exact '
+             'multiple by one ulp is truncated to the neighbouring grid point.')
+RULE_ORD1 = ('ORD1: where gates of a list are fused into one matrix the later gate multiplies from the LEFT (`gate.array @ previous`): `previous @ gate.array` applies a run '
+             'of gates in reversed order.')
+
+
+def fw2_rnd1_ord1(proj, rep, which, modules=None):
+    from ..callgraph import resolve_callee
+    n = dict(FW2=0, RND1=0, ORD1=0)
+    for k in which:
+        rep.rule(k, globals()['RULE_' + k])
+    for fi in proj.iter_functions():
+        m = fi.module
+        if not _in_scope(m, modules):
+            continue
+        fn = fi.node
+        if 'FW2' in which:
+            opts = {a.arg for a, d in zip(reversed(fn.args.args), reversed(fn.args.defaults))} | {a.arg for a, d in zip(fn.args.kwonlyargs, fn.args.kw_defaults) if d is not None}
+            if opts:
+                for c in ast.walk(fn):
+                    if not isinstance(c, ast.Call) or any(isinstance(a, ast.Starred) for a in c.args) or any(k.arg is None for k in c.keywords):
+                        continue
+                    try:
+                        r_ = resolve_callee(proj, m, c)
+                    except Exception:
+                        continue
+                    g = r_.node if r_.kind == 'func' else None
+                    if g is None or getattr(g, 'node', None) is None or not isinstance(g.node, (ast.FunctionDef, ast.AsyncFunctionDef)) or g.node is fn:
+                        continue
+                    gargs = g.node.args
+                    gpos = [a.arg for a in gargs.args]
+                    if gpos and gpos[0] in ('self', 'cls'):
+                        gpos = gpos[1:]
+                    gdef = {a.arg for a, d in zip(reversed(gargs.args), reversed(gargs.defaults))} | {a.arg for a, d in zip(gargs.kwonlyargs, gargs.kw_defaults) if d is not None}
+                    for p in sorted(opts & gdef):
+                        supplied = any(k.arg == p for k in c.keywords) or (p in gpos and gpos.index(p) < len(c.args))
+                        if supplied:
+                            continue
+                        n['FW2'] += 1
+                        # innermost enclosing arm
+                        node, arm, outer_if = c, None, None
+                        while getattr(node, '_parent', None) is not None and node is not fn:
+                            par = node._parent
+                            if isinstance(par, ast.If) and (node in par.body or node in par.orelse):
+                                arm = par.body if node in par.body else par.orelse
+                                outer_if = par
+                                break
+                            node = par
+                        if arm is None:
+                            continue
+                        reads = lambda blk: any(isinstance(x, ast.Name) and x.id == p for s in blk for x in ast.walk(s))
+                        if reads(arm) or not reads(outer_if.orelse if arm is outer_if.body else outer_if.body):
+                            continue
+                        # read after the If, on every enclosing level?
+                        after, node2 = False, outer_if
+                        while node2 is not fn and getattr(node2, '_parent', None) is not None:
+                            par = node2._parent
+                            for f_ in ('body', 'orelse', 'finalbody'):
+                                blk = getattr(par, f_, None)
+                                if isinstance(blk, list) and node2 in blk:
+                                    if reads(blk[blk.index(node2) + 1:]):
+                                        after = True
+                            node2 = par
+                        if after or any(isinstance(x, ast.Name) and x.id == p for x in ast.walk(outer_if.test)):
+                            continue
+                        rep.touch(m)
+                        rep.violation('FW2', fi.qual, f'`{ast.unparse(c)[:70]}` does not pass `{p}` to {g.qual.split(".")[-1]} (default used) and this branch never reads `{p}`: the '
+                                      f'caller\'s `{p}` is honoured on the other branch only', m, c)
+        if 'RND1' in which:
+            for c in ast.walk(fn):
+                if isinstance(c, ast.Call) and ((isinstance(c.func, ast.Name) and c.func.id in ('int', 'round')) or ast.unparse(c.func).split('.')[-1] in ('floor', 'trunc', 'rint', 'round'))\
+                        and c.args and any(isinstance(x, ast.Call) and ast.unparse(x.func).split('.')[-1] in ('angle', 'arctan2', 'atan2') for x in ast.walk(c.args[0])):
+                    nm = c.func.id if isinstance(c.func, ast.Name) else ast.unparse(c.func).split('.')[-1]
+                    n['RND1'] += 1
+                    rep.touch(m)
+                    inner_round = any(isinstance(x, ast.Call) and ((isinstance(x.func, ast.Name) and x.func.id == 'round') or ast.unparse(x.func).split('.')[-1] in ('rint', 'round'))
+                                      for x in ast.walk(c.args[0]))
+                    if nm in ('round', 'rint') or inner_round:
+                        rep.ok('RND1', fi.qual, f'`{ast.unparse(c)[:60]}` rounds to the nearest grid point', m, c)
+                    else:
+                        rep.violation('RND1', fi.qual, f'`{ast.unparse(c)[:70]}` truncates the quantised angle: a phase one ulp below the exact multiple lands on the neighbouring '
+                                      f'grid point', m, c)
+        if 'ORD1' in which:
+            for lp in ast.walk(fn):
+                if not (isinstance(lp, ast.For) and 'gate' in ast.unparse(lp.iter)):
+                    continue
+                tg = {x.id for x in ast.walk(lp.target) if isinstance(x, ast.Name)}
+                for b in ast.walk(lp):
+                    if isinstance(b, ast.BinOp) and isinstance(b.op, ast.MatMult):
+                        cur_r = any(isinstance(x, ast.Name) and x.id in tg for x in ast.walk(b.right))
+                        cur_l = any(isinstance(x, ast.Name) and x.id in tg for x in ast.walk(b.left))
+                        if cur_r == cur_l:
+                            continue
+                        n['ORD1'] += 1
+                        rep.touch(m)
+                        if cur_r and 'array' in ast.unparse(b.right) and ('array' in ast.unparse(b.left) or '[-1]' in ast.unparse(b.left)):
+                            rep.violation('ORD1', fi.qual, f'`{ast.unparse(b)[:70]}`: the gate of the current iteration multiplies from the right, so the fused run acts in reversed '
+                                          f'order on a column state', m, b)
+                        else:
+                            rep.ok('ORD1', fi.qual, f'`{ast.unparse(b)[:50]}`', m, b)
+    for k in which:
+        rep.count(f'{k}.instances', n[k])
+    return n
+
+
+RULE_UV1 = ('UV1: a local name bound to a computed value is read somewhere in its function. A value that is computed, named and never used is a stated intention the code does '
+            'not follow (the decay amplitude `tmp1 = sqrt(rate)` that no Kraus operator contains). Reviewed exceptions are frozen by (function, name).')
+UV1_REVIEWED = {
+    ('numqi.entangle._misc.check_reduction_witness', 'N0'): 'size read once for documentation; the reshape uses dim',
+    ('numqi.entangle.pureb_quantum.mps_to_dicke', 'num_qudit'): 'left over from an assert that was removed',
+    ('numqi.group._internal.group_algebra_product', 'N0'): 'batch size, unused by the einsum formulation',
+}
+
+
+def uv1(proj, rep, modules=None):
+    rep.rule('UV1', RULE_UV1)
+    n = 0
+    for fi in proj.iter_functions():
+        m = fi.module
+        if not _in_scope(m, modules):
+            continue
+        fn = fi.node
+        loads = {x.id for x in ast.walk(fn) if isinstance(x, ast.Name) and isinstance(x.ctx, (ast.Load, ast.Del))}
+        glob = {g_ for g in ast.walk(fn) if isinstance(g, (ast.Global, ast.Nonlocal)) for g_ in g.names}
+        for s in ast.walk(fn):
+            if isinstance(s, ast.Assign) and len(s.targets) == 1 and isinstance(s.targets[0], ast.Name):
+                nm = s.targets[0].id
+                n += 1
+                if nm in loads or nm in glob or nm.startswith('_') or isinstance(s.value, ast.Constant):
+                    continue
+                if (fi.qual, nm) in UV1_REVIEWED:
+                    rep.ok('UV1', fi.qual, f'`{nm}` unused (reviewed: {UV1_REVIEWED[(fi.qual, nm)]})', m, s, text=f'reviewed unused {nm}')
+                    continue
+                rep.touch(m)
+                rep.violation('UV1', fi.qual, f'`{ast.unparse(s)[:70]}` is computed and named but `{nm}` is never read in {fi.qual.rsplit(".", 1)[-1]}: the expression that was meant '
+                              f'to contain it uses something else', m, s)
+    rep.count('UV1.local_bindings', n)
+    if n:
+        mm = proj.mod('numqi.utils')
+        rep.ok('UV1', 'scope', f'{n} local bindings scanned', mm, mm.tree, text='uv1 sweep')
+    return n
+
+
+RULE_EVH1 = ('EVH1: the eigenvector matrix returned by eigh is transposed only together with a conjugation (V.T.conj(), V.conj().T, V.mH, V.mT.conj()): a plain V.T / V.mT is '
+             'the adjoint for real symmetric input only; for a complex Hermitian matrix V^T A V is not the spectral sandwich.')
+
+
+def evh1(proj, rep, modules=None):
+    rep.rule('EVH1', RULE_EVH1)
+    n = 0
+    for fi in proj.iter_functions():
+        m = fi.module
+        if not _in_scope(m, modules):
+            continue
+        fn = fi.node
+        ev = set()
+        for s in ast.walk(fn):
+            if isinstance(s, ast.Assign) and isinstance(s.value, ast.Call) and ast.unparse(s.value.func).split('.')[-1] == 'eigh' and isinstance(s.targets[0], ast.Tuple) \
+                    and len(s.targets[0].elts) == 2 and isinstance(s.targets[0].elts[1], ast.Name):
+                ev.add(s.targets[0].elts[1].id)
+        if not ev:
+            continue
+        for a in ast.walk(fn):
+            if isinstance(a, ast.Attribute) and a.attr in ('T', 'mT') and isinstance(a.ctx, ast.Load):
+                base = a.value
+                inner_conj = isinstance(base, ast.Call) and isinstance(base.func, ast.Attribute) and base.func.attr in ('conj', 'conjugate') and isinstance(base.func.value, ast.Name) \
+                    and base.func.value.id in ev
+                if not (inner_conj or (isinstance(base, ast.Name) and base.id in ev)):
+                    continue
+                n += 1
+                par = getattr(a, '_parent', None)
+                outer_conj = isinstance(par, ast.Attribute) and par.attr in ('conj', 'conjugate')
+                wrapped = isinstance(par, ast.Call) and ast.unparse(par.func).split('.')[-1] in ('conj', 'conjugate')
+                rep.touch(m)
+                if inner_conj or outer_conj or wrapped:
+                    rep.ok('EVH1', fi.qual, f'`{ast.unparse(par if outer_conj else a)[:40]}` is the adjoint of the eigenvector matrix', m, a)
+                else:
+                    # a real-only function: the decomposed matrix is certainly real (dtype float allocation) - not decidable here, keep certain cases only
+                    rep.violation('EVH1', fi.qual, f'`{ast.unparse(a)}` transposes the eigenvectors of eigh without conjugating them: for a complex Hermitian matrix this is not V^dagger',
+                                  m, a)
+    rep.count('EVH1.eigenvector_transposes', n)
+    return n
+
+
+RULE_PSD1 = ('PSD1: every call of numqi.utils.is_positive_semi_definite passes a `shift` (the Cholesky test with shift=0 accepts strictly positive-definite matrices only: '
+             'every rank-deficient state - basis states, pure products, classical mixtures - is rejected).')
+
+
+def psd1(proj, rep, modules=None):
+    rep.rule('PSD1', RULE_PSD1)
+    n = 0
+    for fi in proj.iter_functions():
+        m = fi.module
+        if not _in_scope(m, modules) or fi.qual == 'numqi.utils.is_positive_semi_definite':
+            continue
+        for c in ast.walk(fi.node):
+            if isinstance(c, ast.Call) and ast.unparse(c.func).split('.')[-1] == 'is_positive_semi_definite':
+                n += 1
+                rep.touch(m)
+                if any(k.arg == 'shift' for k in c.keywords) or len(c.args) >= 2:
+                    rep.ok('PSD1', fi.qual, f'`{ast.unparse(c)[:60]}` passes a shift', m, c)
+                else:
+                    rep.violation('PSD1', fi.qual, f'`{ast.unparse(c)[:70]}` runs the Cholesky test with shift=0: a positive semi-definite matrix with a zero eigenvalue is reported '
+                                  f'as not PSD', m, c)
+    rep.count('PSD1.calls', n)
     return n
